@@ -39,7 +39,7 @@ class Evidence:
         for info in res.infos:
             if not engine.fn_belongs(info, prop):
                 continue
-            clauses = [(k, i, t) for (k, i, p, t) in info.clauses if prop in (p or []) and k == 'ensures']
+            clauses = [(k, i, t) for (k, i, p, t) in info.clauses if prop in (p or []) and k in ('ensures', 'obligation')]
             reqs = [t for (k, i, p, t) in info.clauses if k == 'requires']
             if info.trusted:
                 self.trusted.append('[%s] contract of %s assumed (external_body)' % (info.unit, info.key))
@@ -48,7 +48,7 @@ class Evidence:
             bad = len([1 for (k, i, t) in clauses if (info.key, str((k, i))) in fail_keys]) + (1 if (info.key, 'None') in fail_keys else 0)
             n_obl += obl
             n_ok += obl - bad
-            self.functions.append({'function': info.key, 'file': info.file, 'requires': reqs, 'ensures': [t for (_, _, t) in clauses],
+            self.functions.append({'function': info.key, 'file': info.file, 'requires': reqs, 'ensures': [t if k == 'ensures' else 'in-body obligation: ' + t for (k, _, t) in clauses],
                                    'body_sha_repo': info.body_sha_repo, 'body_sha_verified': info.body_sha_verus,
                                    'rewrites': info.rewrites_applied, 'backend': 'verus/z3'})
             for (k, i, t) in clauses[:1]:
